@@ -20,7 +20,7 @@ for p in props:
         "evidence_file": f"/verif/evidence/{pid}.json",
         "replay_cmd_template": f"./check {pid} --replay {{path}}",
         "engine": "lean-proof+correspondence",
-        "level_claimed": {"category": "proof", "text": c["level_text"], "design_ref": c.get("design_ref", f"DESIGN.md section 5, {pid}")},
+        "level_claimed": {"category": c.get("category", "proof"), "text": c["level_text"], "design_ref": c.get("design_ref", f"DESIGN.md section 5, {pid}")},
         "level_note": c["level_note"],
         "technique": c.get("technique", "Lean 4 theorems over a hand-written executable model; model tied to /repo by a differential correspondence run (real Go code vs. compiled Lean model) on every check"),
     })
